@@ -82,6 +82,30 @@ def h_shared_tool(ctx, cfg):
       ctx.prove(ctx.eq(out[n], acc * inv), "streams-of-one-tool-object-are-independent", "%s stream, n=%d (%s size %d)" % (tag, n, tool, size))
 
 
+def h_accumulate_floats(ctx, cfg):
+  """IEEE values the exact-real encoding cannot hold (infinities, overflow to inf): every strategy is still the running
+  sum a plain `+` loop gives.  Concrete data (a typed-values clause, like C01's), the case split is over the prefix length."""
+  from audiolazy import lazy_itertools as lit
+  INF = float("inf")
+  data = {"inf": [1., 2., INF, 3., 4.], "-inf": [1., -INF, 5., 2.], "overflow": [1e308, 1e308, 3., -1e308],
+          "ints": [1, 2 ** 70, -3, 5]}[cfg["data"]]
+  n = ctx.split("len", 0, len(data))
+  x = data[:n]
+  want, acc = [], None
+  for v in x:
+    acc = v if acc is None else acc + v
+    want.append(acc)
+  same = lambda a, b: type(a) is type(b) and (a == b or (a != a and b != b))
+  for name in ("accumulate", "func", "z"):
+    if name == "z":
+      if cfg["data"] == "ints": continue           # the filter strategy works in floats
+      out = list(lit.accumulate.z(list(x), zero=0.))
+    else:
+      out = list(lit.accumulate[name](iter(list(x))))
+    ctx.prove(len(out) == len(want) and all(same(a, b) for a, b in zip(out, want)), "accumulate-is-running-sum",
+              "%s on %r: got %r want %r" % (name, x, out, want))
+
+
 def h_accumulate(ctx, cfg):
   from audiolazy import lazy_itertools as lit
   N = cfg["N"]
@@ -268,6 +292,8 @@ def tasks(tier, seed):
       if N == 0 and size > 1: continue
       T.append(("h_maverage", {"N": N, "size": size}))
     T.append(("h_accumulate", {"N": N}))
+  for d in ("inf", "-inf", "overflow", "ints"):
+    T.append(("h_accumulate_floats", {"data": d}))
   for N in ((4,) if not big else (4, 6)):
     for size in (1, 2, 3):
       for lag in ((1, 2, 3) if not big else (1, 2, 3, 4)):
@@ -287,6 +313,9 @@ def tasks(tier, seed):
       if md == "default" and step != "default" and step < 4:
         continue
       T.append(("h_unwrap", {"N": 3 if not big else 4, "step": step, "md": md, "R": 4 if step != "default" else 8}))
+  # only `step` given: max_delta keeps its documented default (pi), whatever the step
+  for step in (1, 4, 5):
+    T.append(("h_unwrap", {"N": 3, "step": step, "md": "default", "R": 4}))
   T.append(("h_unwrap", {"N": 0, "step": 2, "md": "sym", "R": 4}))
   T.append(("h_unwrap", {"N": 3, "step": 5, "md": 2, "R": 6}))
   T.append(("h_unwrap", {"N": 3, "step": 3, "md": 1, "R": 5}))
